@@ -286,7 +286,19 @@ func init() {
 		return Tuple{int64(n), Iface{}}
 	})
 	R("strconv.ParseInt", func(m *Machine, a []Value) Value {
-		if sn, ok := a[0].(*StrNum); ok && a[1].(int64) == 10 {
+		// the decimal numeral of a symbolic integer (it has no leading zeros, so base 0 reads it as base 10):
+		// the value is the integer itself, within the range of bitSize (decided by the solver)
+		if sn, ok := a[0].(*StrNum); ok && (a[1].(int64) == 10 || a[1].(int64) == 0) {
+			bits := a[2].(int64)
+			if bits <= 0 || bits > 64 {
+				bits = 64
+			}
+			if bits < 64 {
+				lo, hi := -(int64(1) << (bits - 1)), (int64(1)<<(bits-1))-1
+				if m.truth(mkOr(mkCmp("<", sn.N, lo), mkCmp(">", sn.N, hi))) {
+					return Tuple{int64(0), m.errorValue("strconv.ParseInt: parsing numeral: value out of range")}
+				}
+			}
 			return Tuple{sn.N, Iface{}}
 		}
 		n, err := strconv.ParseInt(strArg(m, a[0], "ParseInt"), int(a[1].(int64)), int(a[2].(int64)))
